@@ -72,7 +72,7 @@ def _run_one_segment(case, workdir, seg, crash, stub):
     return {0: "finished", 10: "soft", 137: "hard", 11: "error"}.get(code, f"exit{code}")
 
 
-def execute(case, schedule, workdir, refdir, stub=True, keep=False):
+def execute(case, schedule, workdir, refdir, stub=True, keep=False, tol=None):
     """Run `case` under `schedule` = [(pc, i, kind), ...] (model crash points).  Returns a dict
     with the normalised trace, python-level problems and the final observation."""
     os.makedirs(workdir, exist_ok=True)
@@ -92,7 +92,7 @@ def execute(case, schedule, workdir, refdir, stub=True, keep=False):
                 unarmed.append((pc, i, kind))
         status = _run_one_segment(case, workdir, seg, crash, stub)
         ev = mdlib.load_trace(os.path.join(workdir, f"trace.{seg}.ndjson"))
-        obs = mdlib.observe(workdir, molid, refdir=refdir)
+        obs = mdlib.observe(workdir, molid, refdir=refdir, tol=tol)
         segments.append({"events": ev, "status": status, "obs": obs, "scr": mdlib.screen_labels(workdir, seg), "crash": crash})
         if status == "error" or status.startswith("exit"):
             err = ""
@@ -124,6 +124,7 @@ def execute(case, schedule, workdir, refdir, stub=True, keep=False):
         "segments": [{"status": s["status"], "crash": s["crash"], "n_events": len(s["events"])} for s in segments],
         "final_obs": final["obs"],
         "unarmed": unarmed,
+        "maxdev": max(s["obs"].get("maxdev", 0.0) for s in segments),
     }
     if not keep:
         common.rm(workdir)
